@@ -19,7 +19,7 @@ def known_key(job, tr, clause):
 
 def jobs_for(tier, rng):
     jobs = []
-    n = 48 if tier == "quick" else 400
+    n = 48 if tier == "quick" else 1500
     for k in range(n):
         v0max = rng.choice([0, 0, 2, 5])
         m = gen.unichain(rng, ns=rng.randint(2, 6), na=rng.choice([1, 2, 3]), ne=rng.choice([2, 3]),
@@ -39,7 +39,8 @@ def jobs_for(tier, rng):
                     m["next"][s][a] = list(m["next"][0][a if k % 6 == 4 else 0])
                     m["pk"][s][a] = list(m["pk"][0][a if k % 6 == 4 else 0])
         eps = [rng.choice([1, 1, 3]), rng.choice([0, 1, 2, 3, 4])]
-        jobs.append({"mdp": m, "kind": "RVI", "gamma": [1, 1], "eps": eps, "calls": [40],
+        jobs.append({"mdp": m, "kind": "RVI", "gamma": [1, 1], "eps": eps, "calls": [40], "gamma_as_int": k % 3 == 0,
+                     "eps_as_int": k % 5 == 0,
                      "mbs": rng.choice([1, 2, 3, 1024]), "cert": True, "tag": f"rvi{k}"})
     return jobs
 
